@@ -45,14 +45,14 @@ def lib_phase(ctx, bins, model, n, only=None):
                     nontrivial.add(c["line"])
             elif c["cmd"] == "apply":
                 b = view(c["bl"])
-                want = "".join(("G" if (r["status"] == "F" and norm_key(r["path"]) in b) else r["status"]) for r in c["rs"]) or "_"
+                want = "".join(("G" if (r["status"] == "F" and key_of(r["path"]) in b) else r["status"]) for r in c["rs"]) or "_"
                 if o != want:
                     fails.append({"prop": "C09", "what": "apply: statuses %s, spec %s" % (o, want), "case": c["line"]})
                 if "G" in want and "F" in want:
                     nontrivial.add(c["line"])
             elif c["cmd"] == "ratchet":
                 b = view(c["bl"])
-                cur = {norm_key(r["path"]) for r in c["rs"] if r["status"] in "FG"}
+                cur = {key_of(r["path"]) for r in c["rs"] if r["status"] in "FG"}      # None for a path without a key
                 want = w_keys([k for k in b if k not in cur])
                 if o != want:
                     fails.append({"prop": "C10", "what": "ratchet: stale %s, documented rule gives %s" % (o, want), "case": c["line"]})
@@ -70,7 +70,7 @@ def lib_phase(ctx, bins, model, n, only=None):
                 else:
                     got = p_bl(o)
                     ex = view(c["bl"]) or {}
-                    fk = {norm_key(r["path"]) for r in c["rs"] if r["status"] in "FG"}
+                    fk = {key_of(r["path"]) for r in c["rs"] if r["status"] in "FG"}
                     stray = [k for k in got if k not in fk and k not in ex]
                     if stray:
                         fails.append({"prop": "C09", "what": "update wrote key %s without a violating result" % stray[0], "case": c["line"]})
@@ -253,7 +253,7 @@ class BigProject:
     TWIN = "# generated line\n" * 12
     OLD = 1577836800
 
-    def __init__(self, exe, sizes, baseline_idx, ff_cfg=False, wae=False):
+    def __init__(self, exe, sizes, baseline_idx, ff_cfg=False, wae=False, ghosts=0):
         self.exe = exe
         self.sb = Sandbox(prefix="sgv-c11-")
         self.n = len(sizes)
@@ -277,7 +277,12 @@ class BigProject:
         self.bl = None
         if baseline_idx is not None:
             self.bl = {self.paths[i]: ("C", self.res[self.paths[i]]["code"], self.res[self.paths[i]]["hash"]) for i in baseline_idx}
+            # entries of files that have been deleted since the baseline was written: a directory scan sees them gone
+            for g in range(ghosts):
+                self.bl["src/gone%02d.rs" % g] = ("C", 30, "")
             write_disk(self.sb.proj, self.bl)
+        self.ghost_keys = ["src/gone%02d.rs" % g for g in range(ghosts)] if baseline_idx is not None else []
+        self.last_disk = None
         self.spawns = 0
 
     def resize(self, p, ch):
@@ -304,11 +309,18 @@ class BigProject:
             r["hash"] = self.res.get(r["path"], {}).get("hash", "")
         return rc, obs, err
 
-    def run(self, ff, files=None, threads=1, wae=False, wo=False):
+    def run(self, ff, files=None, threads=1, wae=False, wo=False, ratchet=None, update=None):
         fl = {"b": self.bl is not None, "ff": ff and not self.ff_cfg, "wae": wae, "wo": wo}
+        if ratchet and self.bl is not None:
+            fl["rc"] = ratchet
+        if update:
+            fl["u"] = update
+        if update or (ratchet and self.bl is not None):
+            write_disk(self.sb.proj, self.bl)      # the previous run may have rewritten the file: every run starts from the same one
         self.sb.write(".sloc-guard.toml", self.cfg_ff if ff else self.cfg_noff)
         self.spawns += 1
         rc, out, err = self.sb.run(self.exe, cli_args(fl, files), env={"RAYON_NUM_THREADS": str(threads)})
+        self.last_disk = read_disk(self.sb.proj)
         obs, _ = parse_json_results(out)
         for r in obs:
             r["hash"] = self.res.get(r["path"], {}).get("hash", "")
@@ -336,14 +348,16 @@ def placements(k, rng=None, limit=None):
     return out
 
 
-def trace_case(exe, sizes, bl_idx, orders, threads_list, reps, ff_cfg, wae, wo, full_scan=False):
-    """One project, several fail-fast runs. Returns list of trace dicts."""
-    pj = BigProject(exe, sizes, bl_idx, ff_cfg=ff_cfg)
+def trace_case(exe, sizes, bl_idx, orders, threads_list, reps, ff_cfg, wae, wo, full_scan=False, ratchet=None, ghosts=0, update=None):
+    """One project, several fail-fast runs. Returns list of trace dicts. [ratchet] = --ratchet mode of every run
+    (w / a / s), [ghosts] = number of baseline entries whose file no longer exists, [update] = --update-baseline mode of every run."""
+    pj = BigProject(exe, sizes, bl_idx, ff_cfg=ff_cfg, ghosts=ghosts)
     out = []
     try:
         for order in orders:
             files = None if full_scan else [pj.paths[i] for i in order]
-            rc0, obs0, raw0 = pj.run(False, files, 1, wae, wo)
+            rc0, obs0, raw0 = pj.run(False, files, 1, wae, wo, ratchet, update)
+            disk_noff = pj.last_disk
             R = [pre(r) for r in obs0]
             # independent evaluation of every listed file: the run without fail-fast must agree with it
             # whatever the order (byte-identical files in two languages must not share counts)
@@ -353,10 +367,12 @@ def trace_case(exe, sizes, bl_idx, orders, threads_list, reps, ff_cfg, wae, wo, 
             eval_diff = [x for x in got if x not in want][:2]
             for th in threads_list:
                 for _ in range(reps):
-                    rc, obs, raw = pj.run(True, files, th, wae, wo)
+                    rc, obs, raw = pj.run(True, files, th, wae, wo, ratchet, update)
                     out.append({"sizes": sizes, "baseline": bl_idx, "order": list(order) if order is not None else None, "threads": th, "ff_cfg": ff_cfg,
                                 "wae": wae, "wo": wo, "R": R, "Rp": [pre(r) for r in obs], "obs": obs, "exit": rc, "exit_noff": rc0,
-                                "disk": pj.bl, "full_scan": full_scan, "eval_ok": eval_ok, "eval_diff": eval_diff})
+                                "disk": pj.bl, "full_scan": full_scan, "eval_ok": eval_ok, "eval_diff": eval_diff,
+                                "ratchet": ratchet if pj.bl is not None else None, "ghosts": ghosts, "ghost_keys": list(pj.ghost_keys),
+                                "disk1": pj.last_disk, "disk1_noff": disk_noff, "update": update})
         return out, pj.spawns
     finally:
         pj.close()
@@ -370,8 +386,10 @@ def validate_traces(model, traces):
         l1.append("ffsub\t%s\t%s\t%s" % (w_results(t["R"]), w_results(t["Rp"]), ob))
         # the loop runs over the files only; structure results are appended afterwards (C11_structure_results_appended)
         l2.append("ffseq\t%s\t%s" % (w_results([r for r in t["R"] if r["kind"] in ("n", "c")]), ob))
-        fl = {"b": t["disk"] is not None, "wae": t["wae"], "wo": t["wo"], "ff": True}
-        l3.append("step\t%s\t%s\t_\t%s" % (w_flags(fl), w_results(t["Rp"]), w_bl(t["disk"])))
+        fl = {"b": t["disk"] is not None, "wae": t["wae"], "wo": t["wo"], "ff": True, "rc": t.get("ratchet"), "u": t.get("update")}
+        # a directory scan sees that the files of the ghost entries are gone (EvaluatedPaths::covers); a --files run does not
+        gone = t.get("ghost_keys") if t.get("full_scan") else None
+        l3.append("step\t%s\t%s\t%s\t%s" % (w_flags(fl), w_results(t["Rp"]), w_keys(gone) if gone else "_", w_bl(t["disk"])))
     o1, e1 = run_sharded(model, l1)
     o2, e2 = run_sharded(model, l2)
     o3, e3 = run_sharded(model, l3)
@@ -380,9 +398,12 @@ def validate_traces(model, traces):
     for t, a, b, c in zip(traces, o1, o2, o3):
         t["ffsub"] = (a == "1")
         t["seq_len"] = int(b) if b.isdigit() else -1
+        if t.get("update"):      # an updating run ignores fail-fast (fix D56): its one-worker schedule is the whole list
+            t["seq_len"] = sum(1 for r in t["R"] if r["kind"] in ("n", "c"))
         f = c.split("\t")
         t["model_exit"] = int(f[1]) if len(f) > 1 else -1
         t["model_statuses"] = f[0]
+        t["model_disk1"] = f[2] if len(f) > 2 else None
     return traces
 
 
@@ -451,6 +472,25 @@ def replay_file(ctx, path, prop):
             print("  model:", m)
         for f in classify_history(recs, set()):
             print("ORACLE", f[:3])
+    elif j.get("trace") and j["trace"].get("marker"):
+        t = j["trace"]
+        recs, fs, _ = subdir_ratchet_case(bins["sgcli"], ctx.rng, t["marker"], t["root_baseline"], t["ratchet_by_config"], t["threads"], spec=t)
+        for r in recs:
+            print("step", r["note"], "cwd", r["cwd"], r["flags"], "exit", r["exit"], "pkg/base.json", sorted(r["disk0"] or {}), "->", sorted(r["disk1"] or {}),
+                  "stale", r["stale_reported"], "other files changed:", r["other_files_changed"])
+        for f in fs:
+            print("ORACLE", f["prop"], f["what"])
+    elif j.get("trace") and "src/\\xff.rs" in (j["trace"].get("files") or {}):
+        t = j["trace"]
+        recs, fs = nonutf8_case(bins["sgcli"], t["files"]["src/\\xfe.rs"] > 10, t["threads"])
+        for r in recs:
+            print("step", r["note"], "exit", r["exit"], [x["shown"] + ":%d:" % x["code"] + x["status"] for x in r["obs"]], "file", sorted(r["disk0"] or {}), "->", sorted(r["disk1"] or {}), "stale", r["stale_reported"])
+        for f in fs:
+            print("ORACLE", f["prop"], f["what"])
+    elif j.get("trace") and j["trace"].get("new_file"):
+        r = backslash_phase(ctx, bins, model)
+        for f in r["findings"] + r["mismatches"]:
+            print("ORACLE", f.get("prop"), f["what"], f.get("trace"))
     elif j.get("trace") and j["trace"].get("shape"):
         t = j["trace"]
         recs, fs, _ = big_ratchet_case(bins["sgcli"], ctx.rng, t["n"], t.get("threads", 4), t["fixed_idx"])
@@ -460,9 +500,11 @@ def replay_file(ctx, path, prop):
             print("ORACLE", f["prop"], f["what"])
     elif j.get("trace"):
         t = j["trace"]
-        tr, _ = trace_case(bins["sgcli"], t["sizes"], t["baseline"], [t["order"]], [t["threads"]], 3, t["ff_cfg"], t["wae"], t["wo"], t.get("full_scan", False))
+        tr, _ = trace_case(bins["sgcli"], t["sizes"], t["baseline"], [t["order"]], [t["threads"]], 3, t["ff_cfg"], t["wae"], t["wo"], t.get("full_scan", False),
+                           t.get("ratchet"), t.get("ghosts", 0), t.get("update"))
         for x in validate_traces(model, tr):
-            print("trace", {k: x[k] for k in ("order", "threads", "exit", "exit_noff", "ffsub", "model_exit")}, [r["path"] + ":" + r["status"] for r in x["obs"]])
+            print("trace", {k: x[k] for k in ("order", "threads", "ratchet", "update", "exit", "exit_noff", "ffsub", "model_exit")}, [r["path"] + ":" + r["status"] for r in x["obs"]],
+                  "entries after:", sorted(x["disk1"] or {}), "without fail-fast:", sorted(x["disk1_noff"] or {}))
     elif j.get("first_mismatch") and j["first_mismatch"].get("case"):
         line = j["first_mismatch"]["case"]
         hd = HashDir()
@@ -577,3 +619,287 @@ def error_entry_phase(ctx, bins, model, quick=True):
         if not t["ffsub"] or t["exit"] != t["model_exit"]:
             tie.append({"what": "fail-fast run with an unreadable entry: not ff_sub of the full run, or exit differs from the model", "trace": slimt})
     return {"traces": len(traces), "findings": findings, "mismatches": tie, "spawns": spawns}
+
+
+# ------------------------------------------------------------------ runs from a sub-directory of the project (C10)
+
+def _tree(base, skip=()):
+    """path -> sha256 of every regular file below base (relative paths), without the ones in skip"""
+    out = {}
+    for dp, dn, fn in os.walk(base):
+        for f in fn:
+            p = os.path.join(dp, f)
+            rel = os.path.relpath(p, base)
+            if rel in skip:
+                continue
+            try:
+                out[rel] = hashlib.sha256(open(p, "rb").read()).hexdigest()
+            except OSError:
+                out[rel] = "?"
+    return out
+
+
+def _read_bl(path):
+    if not os.path.exists(path):
+        return None
+    j = json.load(open(path))
+    out = {}
+    for k, e in j["files"].items():
+        out[k] = ("C", e["lines"], e["hash"]) if e["type"] == "content" else ("S", "f" if e["violation_type"] == "files" else "d", e["count"])
+    return out
+
+
+def subdir_ratchet_case(exe, rng, marker, root_baseline, by_cfg, threads, spec=None):
+    """A project whose root carries the marker (.sloc-guard.toml or .git) and a package directory pkg/ below it that keeps
+    its own baseline pkg/base.json (keys relative to pkg/). Every run has cwd = pkg and names the file by the RELATIVE
+    path `--baseline base.json`; a file of the same name may exist at the project root. Returns (records, findings, spawns)."""
+    sb = Sandbox(prefix="sgv-sub-")
+    recs, findings, spawns = [], [], 0
+    try:
+        cfg = ['version = "2"', "[content]", "max_lines = 10", "warn_threshold = 0.8", 'extensions = ["rs"]']
+        if by_cfg:
+            cfg += ["[baseline]", 'ratchet = "auto"']
+        if marker == "toml":
+            cfgname = ".sloc-guard.toml"
+        else:
+            cfgname = "cfg.toml"
+            os.makedirs(os.path.join(sb.proj, ".git"))
+        sb.write(cfgname, "\n".join(cfg) + "\n")
+        if spec:
+            sizes = dict(spec["files"])
+            names = sorted(sizes)
+        else:
+            n = rng.randint(3, 6)
+            names = ["x%d.rs" % i for i in range(n)]
+            sizes = {f: rng.choice("ooou") for f in names}
+            sizes[names[0]] = "o"
+        texts = {}
+
+        def put(f, ch):
+            texts[f] = body("pkg/" + f, SIZE[ch])
+            sb.write("pkg/" + f, texts[f])
+        for f in names:
+            put(f, sizes[f])
+        sb.write("other/legacy.rs", body("other/legacy.rs", 12))
+        pkg = os.path.join(sb.proj, "pkg")
+        blp = os.path.join(pkg, "base.json")
+        rootbl = os.path.join(sb.proj, "base.json")
+
+        def run(fl, cwd, note):
+            nonlocal spawns
+            a = ["check", "--config", os.path.join(sb.proj, cfgname) if cwd == sb.proj else "../" + cfgname,
+                 "--format", "json", "--color", "never", "--no-sloc-cache", "--baseline", "base.json"]
+            if fl.get("u"):
+                a += ["--update-baseline", UM[fl["u"]]]
+            if fl.get("rc"):
+                a += ["--ratchet", RM[fl["rc"]]]
+            a.append(".")
+            before_tree = _tree(sb.base, skip=(os.path.relpath(blp, sb.base),) if cwd == pkg else (os.path.relpath(rootbl, sb.base),))
+            d0 = _read_bl(blp)
+            spawns += 1
+            rc, out, err = sb.run(exe, a, cwd=cwd, env={"RAYON_NUM_THREADS": str(threads)})
+            d1 = _read_bl(blp)
+            after_tree = _tree(sb.base, skip=(os.path.relpath(blp, sb.base),) if cwd == pkg else (os.path.relpath(rootbl, sb.base),))
+            try:
+                obs, _ = parse_json_results(out)
+            except Exception:
+                obs = []
+            for r in obs:
+                f = norm_key(r["path"])
+                r["hash"] = hashlib.sha256(texts[f].encode()).hexdigest() if f in texts and os.path.exists(os.path.join(pkg, f)) else ""
+            changed = sorted(k for k in set(before_tree) | set(after_tree) if before_tree.get(k) != after_tree.get(k))
+            return {"note": note, "flags": dict(fl, b=True), "cwd": os.path.relpath(cwd, sb.proj), "obs": obs, "rp": [pre(r) for r in obs], "disk0": d0, "disk1": d1, "exit": rc,
+                    "stale_reported": parse_stale(err), "other_files_changed": changed, "stderr": err[-600:]}
+        shape = {"marker": marker, "root_baseline": root_baseline, "ratchet_by_config": by_cfg, "threads": threads, "files": dict(sizes),
+                 "shape": "cwd = <project>/pkg, `check --config ../<cfg> --baseline base.json [--ratchet m] .`: update all; some files fixed or deleted; strict / auto / auto / strict"}
+        r0 = run({"u": "a"}, pkg, "update all from pkg/")
+        if root_baseline:
+            run({"u": "a"}, sb.proj, "update all from the project root (root/base.json)")
+        # resolve some violations: shrink or delete
+        over = [f for f in names if sizes[f] == "o"]
+        if spec:
+            after = dict(spec["after"])
+        else:
+            after = {f: ("-" if rng.random() < 0.3 else rng.choice("uw")) for f in rng.sample(over, rng.randint(1, len(over)))}
+        fixed, gone = sorted(after), sorted(f for f in after if after[f] == "-")
+        for f in fixed:
+            if after[f] == "-":
+                os.remove(os.path.join(pkg, f))
+            else:
+                put(f, after[f])
+        shape["after"] = after
+        auto_fl = {} if by_cfg else {"rc": "a"}
+        steps = [run({"rc": "s"}, pkg, "strict before tightening"), run(dict(auto_fl), pkg, "auto"), run(dict(auto_fl), pkg, "auto again"),
+                 run({"rc": "s"}, pkg, "strict after tightening")]
+        for st in steps:
+            st["dirs"] = sorted(gone)          # a directory scan sees the deleted files gone
+            st["flags"] = dict(st["flags"], **({"rg": "a"} if by_cfg else {}))
+            if st["other_files_changed"]:
+                findings.append({"prop": "C10", "class": None, "trace": shape,
+                                 "what": "no_add_without_update: step '%s' run from pkg/ with the relative `--baseline base.json` created or changed %s (only pkg/base.json is the baseline of this run)" % (
+                                     st["note"], st["other_files_changed"])})
+        s1, a1, a2, s2 = steps
+        want = set(fixed)
+        removed = set(view(a1["disk0"]) or {}) - set(view(a1["disk1"]) or {})
+        if s1["exit"] != 1:
+            findings.append({"prop": "C10", "class": None, "trace": shape, "what": "strict from pkg/: exit %d with resolved entries %s" % (s1["exit"], sorted(want))})
+        if removed != want:
+            findings.append({"prop": "C10", "class": None, "trace": shape,
+                             "what": "stale_only_if_evaluated_and_resolved: auto run from pkg/ removed %s from the file named by --baseline (pkg/base.json); evaluated and resolved: %s" % (sorted(removed), sorted(want))})
+        if (a2["disk1"] or {}) != (a2["disk0"] or {}) or (view(a2["disk0"]) or {}) != {k2: e for k2, e in (view(a1["disk0"]) or {}).items() if k2 not in want}:
+            findings.append({"prop": "C10", "class": None, "trace": shape, "what": "auto_fixpoint: the rerun from pkg/ after the auto tightening found the file %s" % sorted(a2["disk0"] or {})})
+        if s2["exit"] != 0 or s2["stale_reported"]:
+            findings.append({"prop": "C10", "class": None, "trace": shape,
+                             "what": "auto_fixpoint: strict run right after the auto tightening (cwd pkg/) exits %d, stale %s" % (s2["exit"], s2["stale_reported"])})
+        recs = [r0] + steps
+        r0["dirs"] = []
+        if by_cfg:
+            r0["flags"]["rg"] = "a"
+        for r in recs:
+            r["shape"] = shape
+        return recs, findings, spawns
+    finally:
+        sb.close()
+
+
+def subdir_ratchet_phase(ctx, bins, model, k):
+    rng = ctx.rng
+    allrecs, findings, spawns = [], [], 0
+    for i in range(k):
+        recs, fs, sp = subdir_ratchet_case(bins["sgcli"], rng, "toml" if i % 2 == 0 else "git", i % 3 != 2, i % 4 == 3, rng.choice([1, 4]))
+        allrecs += recs
+        findings += fs
+        spawns += sp
+    lines = ["step\t%s\t%s\t%s\t%s" % (w_flags(r["flags"]), w_results(r["rp"]), w_keys(r["dirs"]) if r["dirs"] else "_", w_bl(r["disk0"])) for r in allrecs]
+    mouts, merrs = run_sharded(model, lines)
+    if merrs:
+        raise CheckBroken("model driver failed: %s" % merrs[:1])
+    mism = []
+    for r, mo in zip(allrecs, mouts):
+        st = "".join(x["status"] for x in r["obs"]) or "_"
+        f = mo.split("\t")
+        if len(f) < 4 or (f[0], f[1], f[2]) != (st, str(r["exit"]), w_bl(r["disk1"])):
+            mism.append({"what": "run from a sub-directory, step '%s': statuses %s exit %s file %s; model %s" % (r["note"], st, r["exit"], sorted(r["disk1"] or {}), mo), "trace": r["shape"]})
+    return {"steps": len(allrecs), "findings": findings, "mismatches": mism, "spawns": spawns}
+
+
+# ------------------------------------------------------------------ paths that are not valid UTF-8 (C09 non-masking, C10)
+
+FF, FE, LOSSY = "src/\udcff.rs", "src/\udcfe.rs", "src/\ufffd.rs"
+
+
+def nonutf8_case(exe, fe_over, threads):
+    """src/<ff>.rs (12 lines, over), src/<fe>.rs (3 or 15 lines), src/ok.rs (13 lines, over): the two names that are not
+    valid UTF-8 have the same lossy form. Returns (records with raw-unit paths, findings)."""
+    sb = Sandbox(prefix="sgv-nu8-")
+    recs, findings = [], []
+    try:
+        sb.write(".sloc-guard.toml", 'version = "2"\n[content]\nmax_lines = 10\nwarn_threshold = 0.8\nextensions = ["rs"]\n')
+        lines = {FF: 12, FE: 15 if fe_over else 3, "src/ok.rs": 13}
+        texts = {p: ("let v = %d;\n" % i) * n for i, (p, n) in enumerate(lines.items())}
+        for p, t in texts.items():
+            sb.write(p, t)
+        bycode = {n: p for p, n in lines.items()}
+        shape = {"files": {"src/\\xff.rs": 12, "src/\\xfe.rs": lines[FE], "src/ok.rs": 13}, "threads": threads}
+
+        def run(fl, files, note):
+            d0 = read_disk(sb.proj)
+            rc, out, err = sb.run(exe, cli_args(fl, files), env={"RAYON_NUM_THREADS": str(threads)})
+            d1 = read_disk(sb.proj)
+            try:
+                obs, _ = parse_json_results(out)
+            except Exception:
+                obs = []
+            for r in obs:      # the report shows the lossy form; the line count identifies the file
+                real = bycode.get(r["code"])
+                r["shown"] = r["path"]
+                if real:
+                    r["path"] = "./" + real
+                    r["hash"] = hashlib.sha256(texts[real].encode()).hexdigest()
+            rec = {"note": note, "flags": dict(fl), "files": files, "obs": obs, "rp": [pre(r) for r in obs], "disk0": d0, "disk1": d1, "exit": rc,
+                   "stale_reported": parse_stale(err), "dirs": [], "shape": shape}
+            recs.append(rec)
+            return rec
+
+        def status_of(rec, p):
+            return [r["status"] for r in rec["obs"] if r["path"] == "./" + p]
+        u = run({"u": "a"}, None, "update all")
+        if set(view(u["disk1"]) or {}) != {"src/ok.rs"}:
+            findings.append({"prop": "C09", "class": None, "trace": dict(shape, step=u["note"]),
+                             "what": "history_inv: --update-baseline all wrote the keys %s; only src/ok.rs has a key (the lossy key of a non-UTF-8 path is the key of another file)" % sorted(u["disk1"] or {})})
+        c = run({"b": True}, None, "check --baseline")
+        if status_of(c, FF) != ["F"] or c["exit"] != 1 or (fe_over and status_of(c, FE) != ["F"]):
+            findings.append({"prop": "C09", "class": None, "trace": dict(shape, step=c["note"]),
+                             "what": "unrecorded_always_fails: exit %d, src/\\xff.rs %s, src/\\xfe.rs %s (no entry can record either path)" % (c["exit"], status_of(c, FF), status_of(c, FE))})
+        # the file as the code before fix D55 wrote it: the lossy key of src/<ff>.rs
+        legacy = dict(view(u["disk1"]) or {})
+        legacy[LOSSY] = ("C", 12, "")
+        write_disk(sb.proj, legacy)
+        c2 = run({"b": True}, None, "check --baseline, file holds the lossy key")
+        if status_of(c2, FF) != ["F"] or c2["exit"] != 1 or (fe_over and status_of(c2, FE) != ["F"]):
+            findings.append({"prop": "C09", "class": None, "trace": dict(shape, step=c2["note"]),
+                             "what": "unrecorded_always_fails: with the entry src/<U+FFFD>.rs in the file: exit %d, src/\\xff.rs %s, src/\\xfe.rs %s; neither path is that entry's" % (
+                                 c2["exit"], status_of(c2, FF), status_of(c2, FE))})
+        for mode in ("s", "a"):
+            write_disk(sb.proj, legacy)
+            r = run({"b": True, "rc": mode}, [FE], "--files src/<fe>.rs --ratchet %s" % RM[mode])
+            want_exit = 1 if fe_over else 0
+            if r["exit"] != want_exit or r["stale_reported"] or (view(r["disk1"]) or {}) != legacy:
+                findings.append({"prop": "C10", "class": None, "trace": dict(shape, step=r["note"]),
+                                 "what": "stale_only_if_evaluated_and_resolved: a run that evaluated src/\\xfe.rs only: exit %d (expected %d), stale %s, entries afterwards %s; the entry src/<U+FFFD>.rs is not that path's" % (
+                                     r["exit"], want_exit, r["stale_reported"], sorted(r["disk1"] or {}))})
+        return recs, findings
+    finally:
+        sb.close()
+
+
+def nonutf8_phase(ctx, bins, model):
+    allrecs, findings = [], []
+    for fe_over, th in ((False, 1), (True, 1), (True, 4)):
+        recs, fs = nonutf8_case(bins["sgcli"], fe_over, th)
+        allrecs += recs
+        findings += fs
+    lines = ["step\t%s\t%s\t_\t%s" % (w_flags(r["flags"]), w_results(r["rp"]), w_bl(r["disk0"])) for r in allrecs]
+    mouts, merrs = run_sharded(model, lines)
+    if merrs:
+        raise CheckBroken("model driver failed: %s" % merrs[:1])
+    mism = []
+    for r, mo in zip(allrecs, mouts):
+        st = "".join(x["status"] for x in r["obs"]) or "_"
+        f = mo.split("\t")
+        if len(f) < 4 or (f[0], f[1], f[2]) != (st, str(r["exit"]), w_bl(r["disk1"])):
+            mism.append({"what": "paths that are not valid UTF-8, step '%s': statuses %s exit %s file %s; model %s" % (r["note"], st, r["exit"], sorted(r["disk1"] or {}), mo), "trace": r["shape"]})
+    return {"steps": len(allrecs), "findings": findings, "mismatches": mism, "spawns": len(allrecs)}
+
+
+# ------------------------------------------------------------------ a backslash in a file name (C09, known finding D54)
+
+def backslash_phase(ctx, bins, model):
+    """src/a/b.rs recorded; a file literally named `a\\b.rs` appears in src, over the limit. path_key reads the backslash as
+    a separator on every platform, so both files have the key src/a/b.rs."""
+    sb = Sandbox(prefix="sgv-bsl-")
+    findings, mism = [], []
+    try:
+        sb.write(".sloc-guard.toml", 'version = "2"\n[content]\nmax_lines = 10\nextensions = ["rs"]\n')
+        sb.write("src/a/b.rs", body("src/a/b.rs", 12))
+        rc0, _, _ = sb.run(bins["sgcli"], cli_args({"u": "a"}))
+        d0 = read_disk(sb.proj)
+        sb.write("src/a\\b.rs", body("src/a_b.rs", 15))
+        rc, out, err = sb.run(bins["sgcli"], cli_args({"b": True}))
+        obs, _ = parse_json_results(out)
+        new = [r for r in obs if r["code"] == 15]       # the report spells both paths src/a/b.rs; the line count tells them apart
+        for r in new:
+            r["path"] = "./src/a\\b.rs"
+        shape = {"recorded": sorted(d0 or {}), "new_file": "src/a\\b.rs (15 lines, limit 10)", "reported": [r["path"] + ":" + r["status"] for r in obs], "exit": rc}
+        if len(new) != 1:
+            mism.append({"what": "backslash file name: expected one result for src/a\\b.rs, got %s" % shape["reported"]})
+        elif new[0]["status"] != "F" or rc != 1:
+            findings.append({"prop": "C09", "class": "K09_backslash_name", "trace": shape,
+                             "what": "unrecorded_always_fails: src/a\\b.rs (not recorded; the file recorded is src/a/b.rs) reported %s, exit %d" % (new[0]["status"], rc)})
+        mo, _, _ = run_lines(model, ["step\t%s\t%s\t_\t%s" % (w_flags({"b": True}), w_results([pre(r) for r in obs]), w_bl(d0))])
+        f = mo[0].split("\t")
+        if (f[0], f[1]) != ("".join(r["status"] for r in obs) or "_", str(rc)):
+            mism.append({"what": "backslash file name: statuses/exit %s %d, model %s" % (shape["reported"], rc, mo[0])})
+        return {"steps": 2, "findings": findings, "mismatches": mism, "spawns": 2}
+    finally:
+        sb.close()
